@@ -379,7 +379,14 @@ impl Flow {
                 // thorough = every filler size up to the limit of a jump range
                 ("jump-distances", match (ctx.flavour, ctx.tier) { (Flavour::Rel, Tier::Quick) => super::jumps::quick_values().len() as u64, (Flavour::Rel, Tier::Thorough) => 65_536, (Flavour::Miri, _) => 12, _ => 300 }),
             ]),
-            Which::C12 => Families::new(vec![("directed", c12_directed().len() as u64), ("limits", limit_cases().len() as u64), ("calls-random", rnd)]),
+            Which::C12 => Families::new(vec![
+                ("directed", c12_directed().len() as u64),
+                ("limits", limit_cases().len() as u64),
+                ("calls-random", rnd),
+                // the directed calls again, written without blanks after the commas, run by the shipped binary under several
+                // environments (props/binfile.rs)
+                ("calls-through-the-binary", if ctx.flavour == Flavour::Rel { c12_directed().len() as u64 } else { 0 }),
+            ]),
         }
     }
 
@@ -394,6 +401,7 @@ impl Flow {
                 (name, to_text(&template(k)))
             }
             "jump-distances" => (name, format!("jump-distances #{}", i)),
+            "calls-through-the-binary" => (name, c12_directed()[i as usize].1.clone()),
             "residue" => (name, residue_program(RESIDUE_BODIES[(i / 4) as usize], 3, i % 2 == 1, (i / 2) % 2 == 1)),
             "control-random" => (name, to_text(&random_program(&mut r, Profile::Control).0)),
             "directed" if self.which == Which::C11 => (name, c11_directed()[i as usize].1.to_string()),
@@ -527,6 +535,15 @@ impl Check for Flow {
     fn run_case(&mut self, ctx: &Ctx, idx: u64, st: &mut Stats) {
         {
             let (_, name, i) = self.fams(ctx).locate(idx);
+            if name == "calls-through-the-binary" {
+                let t = c12_directed()[i as usize].1.clone();
+                st.count("cases:calls-through-the-binary");
+                if t.len() < 20_000 {
+                    super::binfile::compare_with_binary(&t.replace(", ", ","), "calls-through-the-binary", st);
+                    super::binfile::compare_with_binary(&t, "calls-through-the-binary", st);
+                }
+                return;
+            }
             if name == "jump-distances" {
                 let f = match (ctx.flavour, ctx.tier) {
                     (Flavour::Rel, Tier::Quick) => super::jumps::quick_values()[i as usize],
